@@ -201,21 +201,18 @@ Qed.
 
 Lemma cgood_accept s : cgood s (accept s).
 Proof.
-  unfold accept. destruct (negb (s_srv s)); [exact I|].
+  unfold accept. destruct (negb (s_srv s) || s_dying s); [exact I|].
   match goal with |- cgood s (if ?b then establish ?s1 0 ?c else _) => assert (L : same_ud s s1) by (apply (ud_add s (fresh _ CbServer)); reflexivity) end.
   destruct (_ =? 0).
   - eapply cgood_weaken; [exact L|apply cgood_establish].
   - apply cgood_ret. eapply same_ud_trans; [exact L|apply same_ud_enq].
 Qed.
 
-Lemma cgood_srv_destroy_from n : forall s c, cgood s (srv_destroy_from s n c).
+Lemma cgood_srv_hand s c : cgood s (srv_hand s c).
 Proof.
-  induction n as [|n IH]; intros s c; cbn [srv_destroy_from]; [apply cgood_ret, same_ud_refl|].
-  destruct (getc s c) as [k|] eqn:Hg; [|apply cgood_ret, same_ud_refl].
-  destruct (k_ccb k); try apply IH. destruct (k_mapped k && k_alive k); [|apply IH].
-  assert (L : same_ud s (put s c (set_own k CbServer false (k_urefs k) (k_delayed k)))).
+  unfold srv_hand. destruct (getc s c) as [k|] eqn:Hg; [|exact I].
+  assert (L : same_ud s (put s c (set_own k (k_ccb k) false (k_urefs k) (k_delayed k)))).
   { apply same_ud_put. intros k0 Hk0. rewrite Hg in Hk0. injection Hk0 as <-. auto. }
-  apply cgood_bind; [|intros s1; apply IH].
   destruct (k_loop k =? 0).
   - eapply cgood_weaken; [exact L|apply cgood_connect_destroyed].
   - apply cgood_ret. eapply same_ud_trans; [exact L|apply same_ud_enq].
@@ -288,15 +285,16 @@ Lemma cgood_step strict s o : cgood s (step strict s o).
 Proof.
   destruct o; cbn [step].
   - apply cgood_finish, cgood_accept.
-  - destruct (negb (s_srv s)); [exact I|]. destruct (_ && _); [exact I|]. destruct (_ && _); [exact I|]. apply cgood_finish.
-    apply cgood_bind; [apply cgood_srv_destroy_from|]. intros s1. apply cgood_ret, same_ud_conns. reflexivity.
+  - destruct (negb (s_srv s)); [exact I|]. destruct (_ && _); [exact I|]. destruct (next_entry (s_conns s) 0) as [c0|].
+    + apply cgood_finish. eapply cgood_weaken; [|apply cgood_srv_hand]. apply same_ud_conns. reflexivity.
+    + apply cgood_finish, cgood_ret, same_ud_conns. reflexivity.
   - apply cgood_finish, cgood_cli_connect.
   - apply cgood_finish, cgood_cli_destroy.
   - destruct (getl s l) as [v|]; [|exact I]. destruct (q_idle v && negb (gone s l)); [|exact I]. apply cgood_ret, same_ud_conns. reflexivity.
   - destruct (getl s l) as [v|]; [|exact I]. destruct (q_batch v) as [|t rest]; [exact I|]. apply cgood_finish.
     eapply cgood_weaken; [|apply cgood_run_task]. apply same_ud_conns. reflexivity.
   - destruct (getl s l) as [v|]; [|exact I]. destruct (q_batch v); [|exact I]. destruct (negb (q_drain v)); [exact I|].
-    destruct (quitting s l); [destruct (_ && _); [exact I|]|]; apply cgood_finish, cgood_ret, same_ud_conns; reflexivity.
+    destruct (quitting s l); [destruct (_ && _); [exact I|]; destruct (_ && _); [exact I|]|]; apply cgood_finish, cgood_ret, same_ud_conns; reflexivity.
   - destruct (getc s c) as [k|]; [|exact I]. apply cgood_finish, cgood_ev_step.
   - destruct (getc s c) as [k|] eqn:Hg; [|exact I]. destruct (k_delayed k); [exact I|]. destruct (negb _); [exact I|].
     apply cgood_finish, cgood_ret.
